@@ -1082,6 +1082,12 @@ class MarkovChainMonteCarloMethod:
                     1,
                 )
                 for stage, _ in sampling_stages_pb:
+                    if stage.n_iter == 0:
+                        # Stage without any iterations should not change anything - in
+                        # particular adapters should not be initialized and finalized
+                        # without having been updated as this may overwrite transition
+                        # parameters adapted in previous stages with initial defaults
+                        continue
                     for chain_it in chain_iterators:
                         chain_it.sequence = range(stage.n_iter)
                     chain_states, adapter_states, exception = sample_chains_func(
